@@ -72,7 +72,12 @@ func (f *Mapcon) Call(s *slip.Scope, args slip.List, depth int) slip.Object {
 			l2 := args[i].(slip.List)
 			ca[i-1] = l2[n:]
 		}
-		rl, _ := caller.Call(s, ca, d2).(slip.List)
+		r := caller.Call(s, ca, d2)
+		if _, exit := r.(slip.NonLocalExit); exit {
+			// return-from, return or go: control is leaving the function.
+			return r
+		}
+		rl, _ := r.(slip.List)
 		rlist = append(rlist, rl...)
 	}
 	return rlist
